@@ -810,7 +810,9 @@ def gt_select(ctx: Ctx) -> RuleResult:
     okcl = any(c == ("multiple_nodes_successors", role["root"]) for c in clos)
     r.ob(okcl, {"roots closure": clos})
     if not okcl:
-        if clos:
+        backwards = [c for c in clos if c[0] in ("ancestors", "ancestors_of_iter", "predecessors", "minimal_induced_subgraph")]
+        wrong_arg = [c for c in clos if c[0] == "multiple_nodes_successors" and c[1] != role["root"]]
+        if backwards or wrong_arg:
             r.violate("DiGraphEx.make_subgraph: roots step does not keep 'roots and everything depending on them'", f.loc(rs),
                       f"closure used: {clos}", clos)
         else:
@@ -823,8 +825,17 @@ def gt_select(ctx: Ctx) -> RuleResult:
     okx = len(rem) == 1 and rem[0].func.attr == "remove_nodes_from" and dotted(rem[0].func.value) == gv and not loops \
         and rem[0].args and isinstance(rem[0].args[0], ast.Call) and isinstance(rem[0].args[0].func, ast.Attribute) \
         and rem[0].args[0].func.attr == "multiple_nodes_successors" and dotted(rem[0].args[0].args[0]) == role["exclude"]
+    if not okx and len(loops) == 1 and isinstance(loops[0], ast.For) and isinstance(loops[0].iter, ast.Call) \
+            and isinstance(loops[0].iter.func, ast.Attribute) and loops[0].iter.func.attr == "multiple_nodes_successors" \
+            and dotted(loops[0].iter.args[0]) == role["exclude"] and len(rem) == 1 and rem[0].func.attr == "remove_node" \
+            and dotted(rem[0].args[0]) == dotted(loops[0].target):
+        okx = True  # the closure is computed once (a set), then its nodes are removed one by one
     r.ob(okx, {"exclusion": [norm_src(x) for x in rem]})
     if not okx:
+        per_item_closure = loops and rem and dotted(getattr(loops[0], "iter", None)) == role["exclude"] and any(
+            x.func.attr in ("remove_recursively",) or "successors" in norm_src(x) for x in rem)
+        if loops and rem and not per_item_closure:
+            raise Undecided("make_subgraph: exclusion implemented by a loop that is not modelled")
         if loops and rem:
             guarded = any(isinstance(n, ast.If) and any(isinstance(o, (ast.In, ast.NotIn)) for c in ast.walk(n.test)
                                                         if isinstance(c, ast.Compare) for o in c.ops) for l in loops for n in ast.walk(l))
